@@ -135,8 +135,9 @@ def autocorr_1d_int(data, nodata):
     ny = int64(0)  # number of valid Yi
 
     for i in range(N):
-        x = xx[i]
-        y = yy[i]
+        # 64 bit like the accumulators: narrow integers overflow in x * x when interpreted
+        x = int64(xx[i])
+        y = int64(yy[i])
 
         if x != nodata:
             Sx += x
